@@ -161,3 +161,46 @@ Proof.
   intros Hok Hwf Hw. unfold attempt_prog, attempt_ref, hops_of. rewrite (ok_root g p Hok).
   apply prog_is_ref; [exact Hok|exact Hwf|exact Hw|lia].
 Qed.
+
+(* ---------- reads of ANY program of the parsed shape (no checker involved) ---------- *)
+Lemma pfast_log U p ps rest off rest1 off1 tr1 : (1 <= U)%nat ->
+  pfast U p ps rest off = (rest1, off1, tr1) ->
+  off <= off1 /\ sorted_in off (offs tr1) off1 /\ N.of_nat (length tr1) <= off1 - off + 2.
+Proof.
+  intros HU. unfold pfast. destruct (p_loop ps) as [[k m]|]; intros H.
+  - exact (fast_chunk_log U _ HU _ _ _ _ _ _ H).
+  - injection H as ? ? ?; subst. split; [lia|]. split; [apply sorted_in_nil|cbn; lia].
+Qed.
+
+Theorem walk_prog_log U p isprefix start : (1 <= U)%nat ->
+  forall fuel hops rest s off c r tr,
+  walk_prog U p isprefix start fuel hops rest s off c = (r, tr) ->
+  exists hi, off <= hi /\ sorted_in off (offs tr) hi /\ N.of_nat (length tr) <= 3 * (hi + 1 - off).
+Proof.
+  intros HU. induction fuel as [|fuel IH]; intros hops rest s off c r tr H; cbn [walk_prog] in H.
+  - injection H as ? ?; subst. exists off. split; [lia|]. split; [apply sorted_in_nil|cbn; lia].
+  - destruct (PositiveMap.find s (p_states p)) as [ps|].
+    2:{ injection H as ? ?; subst. exists off. split; [lia|]. split; [apply sorted_in_nil|cbn; lia]. }
+    destruct (pfast U p ps rest off) as [[rest1 off1] tr1] eqn:Efl.
+    destruct (pfast_log U p ps rest off rest1 off1 tr1 HU Efl) as [Hle [S1 L1]].
+    destruct rest1 as [|b rest'].
+    + assert (Hnil : forall r0, (r0, tr1 ++ [(off1, 1)]) = (r, tr) ->
+        exists hi, off <= hi /\ sorted_in off (offs tr) hi /\ N.of_nat (length tr) <= 3 * (hi + 1 - off)).
+      { intros r0 E. injection E as ? ?; subst.
+        apply (visit_log off off1 tr1 [] off1); [lia|exact S1|exact L1|lia|right; reflexivity|cbn; lia]. }
+      destruct (p_prefix ps && isprefix); [exact (Hnil _ H)|].
+      destruct (p_roottest ps && (off1 =? start)); [exact (Hnil _ H)|].
+      destruct (p_eoi ps) as [t|]; [|exact (Hnil _ H)].
+      destruct hops as [|h]; [exact (Hnil _ H)|].
+      destruct (walk_prog U p isprefix start fuel h [] t (off1 + 1) (psetup_apply (p_setup ps) off1 c)) as [r2 tr2] eqn:Ew.
+      injection H as ? ?; subst.
+      destruct (IH _ _ _ _ _ _ _ Ew) as [hi' [Hh [S' L']]].
+      apply (visit_log off off1 tr1 tr2 hi'); [lia|exact S1|exact L1|lia|left; exact S'|lia].
+    + destruct (pfork_eval p (p_fork ps) b) as [t|].
+      * destruct (walk_prog U p isprefix start fuel hops rest' t (off1 + 1) (psetup_apply (p_setup ps) off1 c)) as [r2 tr2] eqn:Ew.
+        injection H as ? ?; subst.
+        destruct (IH _ _ _ _ _ _ _ Ew) as [hi' [Hh [S' L']]].
+        apply (visit_log off off1 tr1 tr2 hi'); [lia|exact S1|exact L1|lia|left; exact S'|lia].
+      * injection H as ? ?; subst.
+        apply (visit_log off off1 tr1 [] off1); [lia|exact S1|exact L1|lia|right; reflexivity|cbn; lia].
+Qed.
